@@ -67,6 +67,16 @@ type FuncSpec struct {
 	Skip    []string `json:"skip"`    // local variables whose defining/assigning statements are dropped (non-integer helpers such as byte slices; every integer use of them must be covered by `subst` or be a parameter of the same name)
 	RetVar  string   `json:"retvar"`  // translate the leading statements only, up to and including the first assignment to this variable, and return it
 	RetElem *int     `json:"retelem"` // the function returns (the address of) a composite literal: return its i-th element
+	// opt-in extensions for arithmetic ties of functions that store into memory (see ties.go); a spec that uses none
+	// of them is translated exactly as before:
+	RetStore   string   `json:"retstore"`   // source text of a non-identifier assignment target (`h.Version`, `b[0]`, `b.bits[word]`): translate the leading statements up to the first store to it and return the stored value; stores to other memory and call statements before it are dropped. `x[k]` (k a literal) is also matched inside `binary.{Big,Little}Endian.PutUintN(x[lo:hi], v)`
+	SkipGuards bool     `json:"skipguards"` // drop `if c { …; return … }` statements without else (early exits): the definition is the value computed when they are passed
+	SkipStores bool     `json:"skipstores"` // (implied by retstore) drop statements that only store to memory the translation does not model (non-identifier targets), call a function for its effect, or branch over such statements
+	InIf       string   `json:"inif"`       // translate the body of the first `if` statement (or `for cond {}` loop: one iteration) whose condition has this source text as if it were the function body
+	RetCond    bool     `json:"retcond"`    // with inif: return that condition itself (ret must be bool)
+	OnlyFiles  []string `json:"only_files"` // parse and type-check only these files of the directory (taken whatever their build tags say: needed where the crude build-tag filter hides the file, e.g. `!e2e_testing` in package udp)
+	At         string   `json:"at"`         // start at the first statement (source order, any nesting depth, case clauses included) whose source text starts with this prefix; the rest of its statement list follows. Variables written before being declared on this path must be parameters
+	StopAt     string   `json:"stopat"`     // with retvar: on reaching a statement whose source text starts with this prefix, return the variable's current value (instead of returning at an assignment to it)
 }
 
 type ParamSpec struct {
